@@ -127,15 +127,26 @@ theorem admitSegs_bufC (c una cwnd now : U32) :
       · exact h x h1
       · rw [List.mem_singleton.mp h1]; exact ⟨rfl, rfl⟩
 
+/-- `shrink_buf` (after the sender-wedge repair: it also pops the acknowledged head segments) leaves a
+suffix of the buffer -/
+theorem shrinkBuf_bufC {c : U32} {k : Kcp} (h : BufC c k.snd_buf) : BufC c (shrinkBuf k).snd_buf := by
+  obtain ⟨n, _, hdrop⟩ := dropAcked_drop k.snd_buf
+  have hd' : BufC c (dropAcked k.snd_buf) := by
+    rw [hdrop]; intro x hx; exact h x (List.mem_of_mem_drop hx)
+  cases hx : dropAcked k.snd_buf with
+  | nil => rw [shrinkBuf_nil k hx]; exact BufC.nil c
+  | cons s rest =>
+    rw [shrinkBuf_cons k s rest hx]
+    show BufC c (s :: rest)
+    rw [← hx]; exact hd'
+
 theorem inSt1_bufC {c : U32} {st : InLoop} (h : BufC c st.k.snd_buf) (regular : Bool) (hd : Hdr) :
     BufC c (inSt1 regular st hd).k.snd_buf := by
   have key : ∀ k1 : Kcp, k1.snd_buf = st.k.snd_buf → BufC c (shrinkBuf (parseUna k1 hd.una).1).snd_buf := by
     intro k1 e1
-    have hd' : BufC c (k1.snd_buf.drop (unaCount hd.una k1.snd_buf)) := by
-      rw [e1]; intro x hx; exact h x (List.mem_of_mem_drop hx)
-    unfold shrinkBuf parseUna
-    simp only []
-    split <;> exact hd'
+    apply shrinkBuf_bufC
+    show BufC c (k1.snd_buf.drop (unaCount hd.una k1.snd_buf))
+    rw [e1]; intro x hx; exact h x (List.mem_of_mem_drop hx)
   unfold inSt1
   simp only []
   split
@@ -160,7 +171,7 @@ theorem inSt2_bufC {c : U32} {st1 : InLoop} (h : BufC c st1.k.snd_buf) (hd : Hdr
   unfold inSt2
   simp only []
   split
-  · exact parseFastack_bufC (parseAck_bufC h _) _ _
+  · exact parseFastack_bufC (shrinkBuf_bufC (parseAck_bufC h _)) _ _
   · split
     · split
       · split
